@@ -998,6 +998,12 @@ def move_imports_to_toplevel(source: str) -> str:
         for name, binding in _get_import_bindings(node).items():
             name_bindings[name].add(binding)
 
+    def binds_nothing_else(node: ast.Import | ast.ImportFrom) -> bool:
+        return all(
+            name != "*" and name not in defined_names and len(name_bindings[name]) == 1
+            for name in _get_import_bindings(node)
+        )
+
     imports_movable_to_toplevel = {
         node
         for node in all_imports - toplevel_imports
@@ -1006,10 +1012,7 @@ def move_imports_to_toplevel(source: str) -> str:
             for name in _get_package_names(node)
         )
         and not core.has_ignore_comment(source, core.get_charnos(node, source))
-        and all(
-            name not in defined_names and len(name_bindings[name]) == 1
-            for name in _get_import_bindings(node)
-        )
+        and binds_nothing_else(node)
     }
 
     if defs := set(
@@ -1017,7 +1020,9 @@ def move_imports_to_toplevel(source: str) -> str:
     ):
         first_def_lineno = min(node.lineno - len(node.decorator_list) for node in defs)
         imports_movable_to_toplevel.update(
-            node for node in toplevel_imports if node.lineno > first_def_lineno
+            node
+            for node in toplevel_imports
+            if node.lineno > first_def_lineno and binds_nothing_else(node)
         )
 
     for i, node in enumerate(root.body):
